@@ -38,6 +38,8 @@ func runC15(c *mon.Ctx) {
 		c15Enum(c)
 	case "reporter":
 		c.Cases(func(i int, r *mon.Rand) { c15Reporter(c, r) })
+	case "duplex":
+		c.Cases(func(i int, r *mon.Rand) { c15Duplex(c, r) })
 	default:
 		c.Cases(func(i int, r *mon.Rand) {
 			c15Random(c, r.Fork(1))
@@ -619,4 +621,99 @@ func c15ReporterOversize(c *mon.Ctx, r *mon.Rand) {
 	}
 	c.Event("reporter-oversize-scenarios", 1)
 	c.Distinct(mon.Hash64(fmt.Sprint(desc, nOK)))
+}
+
+// c15Duplex: a client transport is full duplex - one goroutine reads replies
+// (ReadByte/Read) while another builds messages with WriteByte/Write/
+// WriteString and flushes; every flush must still send exactly the bytes
+// written since the previous one.
+func c15Duplex(c *mon.Ctx, r *mon.Rand) {
+	sink, err := mon.NewSinkReply([]byte("rrrrrrrr"), r.Range(1, 4))
+	if err != nil {
+		c.Inconclusive("sink: " + err.Error())
+		return
+	}
+	defer sink.Close()
+	tr, err := thriftudp.NewTUDPClientTransport(sink.Addr(), "")
+	if err != nil {
+		c.Inconclusive("transport: " + err.Error())
+		return
+	}
+	c.Eval(1)
+	nMsg := r.Range(20, 120)
+	desc := map[string]interface{}{"scenario": "full-duplex", "messages": nMsg, "replies_per_datagram": sink.ReplyN}
+	c.LogCase(fmt.Sprint(desc))
+	readerDone := make(chan int)
+	go func() {
+		n := 0
+		buf := make([]byte, 64)
+		for {
+			var err error
+			if n%2 == 0 {
+				_, err = tr.ReadByte()
+			} else {
+				_, err = tr.Read(buf)
+			}
+			if err != nil {
+				break
+			}
+			n++
+		}
+		readerDone <- n
+	}()
+	var want [][]byte
+	c.Guard("panic-transport", func() interface{} { return desc }, func() {
+		for m := 0; m < nMsg; m++ {
+			var msg []byte
+			k := r.Range(1, 400)
+			for i := 0; i < k; i++ {
+				b := byte('A' + (m+i)%26)
+				switch r.Intn(3) {
+				case 0:
+					if err := tr.WriteByte(b); err != nil {
+						c.Violation("duplex-write-error", map[string]interface{}{"why": err.Error(), "case": desc})
+					}
+					msg = append(msg, b)
+				case 1:
+					p := []byte{b, b + 1}
+					tr.Write(p)
+					msg = append(msg, p...)
+				default:
+					tr.WriteString(string([]byte{b}))
+					msg = append(msg, b)
+				}
+			}
+			if err := tr.Flush(); err != nil {
+				c.Violation("duplex-flush-error", map[string]interface{}{"why": err.Error(), "case": desc})
+			}
+			want = append(want, msg)
+		}
+	})
+	if !sink.WaitFor(len(want), 10*time.Second) && sink.Drops() != 0 {
+		c.Inconclusive("kernel dropped datagrams at the sink")
+		tr.Close()
+		<-readerDone
+		return
+	}
+	sink.Settle(500 * time.Microsecond)
+	tr.Close()
+	nRead := <-readerDone
+	got := sink.Datagrams()
+	c.Event("duplex-datagrams-compared", int64(len(got)))
+	c.Event("duplex-replies-read", int64(nRead))
+	if len(got) != len(want) {
+		c.Violation("duplex-datagram-count", map[string]interface{}{"why": fmt.Sprintf("%d datagrams received, %d flushed", len(got), len(want)), "case": desc})
+		return
+	}
+	for i := range got {
+		if !bytes.Equal(got[i], want[i]) {
+			j := 0
+			for j < len(got[i]) && j < len(want[i]) && got[i][j] == want[i][j] {
+				j++
+			}
+			c.Violation("duplex-datagram-differs", map[string]interface{}{"why": fmt.Sprintf("datagram %d differs from the bytes written at offset %d (lengths %d/%d) while replies were being read concurrently", i, j, len(got[i]), len(want[i])), "case": desc})
+			break
+		}
+	}
+	c.Distinct(mon.Hash64(fmt.Sprint(desc, r.U64())))
 }
